@@ -42,6 +42,7 @@ generation: right after a pause flip the phase counts as "no status reported". -
 def propagatePause (o : OSet) (n : String) (cur : OPhase) (w : World) : World × OPhase :=
   let want := decide (o.lifecycle = .paused)
   if cur.paused ≠ want then
+    let w := w.tick
     let (w, rv) := freshRV w
     let p := { cur with paused := want, gen := cur.gen + 1, rv := rv }
     ({ setPhase w n (some p) with phaseEvents := w.phaseEvents ++ [PhaseEvent.pausePatch n want none] }, p)
@@ -60,6 +61,7 @@ def remoteReconcile (o : OSet) (ph : PhaseSpec) (w : World) : World × Except Pa
   let n := phaseName o ph
   match w.phases n with
   | none =>
+    let w := w.tick
     let (w, uid) := freshUID w
     let (w, rv) := freshRV w
     let p := { desiredPhase o ph with uid := s!"uid-{uid}", gen := 1, rv := rv }
@@ -80,6 +82,7 @@ def remoteTeardown (o : OSet) (ph : PhaseSpec) (w : World) : World × TRes :=
     if cur.ctrlName ≠ o.name ∨ cur.ctrlUID ≠ o.uid then (w, .done)
     else
       -- (namespace-in-deletion shortcut not modelled: the harness namespace is never deleting)
+      let w := w.tick
       if cur.finCached then
         if cur.deleting then ({ w with phaseEvents := w.phaseEvents ++ [PhaseEvent.delete n none] }, .notDone)
         else
@@ -99,6 +102,7 @@ def phaseOwner (p : OPhase) (setKind ns : String) : Owner :=
 
 /-- locked write on a phase object (merge patch with resourceVersion / status update). -/
 def lockedPhaseWrite (w : World) (mem : OPhase) (f : OPhase → OPhase) : World × Except ApiErr OPhase :=
+  let w := w.tick
   match w.phases mem.name with
   | none => (w, .error .notFound)
   | some cur =>
